@@ -1,10 +1,11 @@
 #!/bin/bash
 # tools/runall.sh [tier] [checks...] : run the registered checks, print rc / wall / violations per check
+HERE="$(cd "$(dirname "${BASH_SOURCE[0]}")/.." && pwd)"
 tier=${1:-quick}; shift
-checks=${@:-$(ls /verif/checks/c*.py | sed 's/.*\/c\([0-9]*\)\.py/C\1/')}
+checks=${@:-$(ls "$HERE"/checks/c*.py | sed 's/.*\/c\([0-9]*\)\.py/C\1/')}
 for c in $checks; do
   s=$(date +%s.%N)
-  out=$(cd /verif && ./check $c --tier $tier 2>&1); rc=$?
+  out=$(cd "$HERE" && ./check $c --tier $tier 2>&1); rc=$?
   e=$(date +%s.%N)
   nv=$(echo "$out" | grep -c '^VIOLATION'); kf=$(echo "$out" | grep -c '^KNOWN-FINDING')
   printf "%s rc=%d viol=%d known=%d wall=%.0fs\n" $c $rc $nv $kf $(echo "$e - $s" | bc)
